@@ -524,6 +524,18 @@ def run_one(cx, label, prog, dynamic=False, keep_tables=False, count=True, rehoo
     return o
 
 
+def coq_eval(*a, **k):
+    """coq_eval_cases, retried once: on the shared box a coqc process is occasionally killed (rc=-9) under memory pressure"""
+    try:
+        return C.coq_eval_cases(*a, **k)
+    except C.HarnessError as e:
+        if "rc=-9" not in str(e) and "rc=137" not in str(e):
+            raise
+        import time
+        time.sleep(20)
+        return C.coq_eval_cases(*a, **k)
+
+
 def flush(cx, tag):
     """evaluate the queued cases inside Coq (reference renderer on the programs, table model on the traces, concurrently)"""
     import threading
@@ -538,11 +550,11 @@ def flush(cx, tag):
         if not terms:
             res["core"] = []
             return
-        bad = C.coq_eval_cases("C05", tag + "c", IMPORTS_CORE, "core_case", "check_core", terms, shard=60, extra_defs=FAMLIB_DEF)
+        bad = coq_eval("C05", tag + "c", IMPORTS_CORE, "core_case", "check_core", terms, shard=60, extra_defs=FAMLIB_DEF)
         maybe = [i for i in bad if meta[i][2][0] == "err" and meta[i][2][1] in possible_kinds(meta[i][1]) and len(possible_kinds(meta[i][1])) > 1]
         nok = 0
         if maybe:
-            still = C.coq_eval_cases("C05", tag + "l", IMPORTS_CORE, "core_case", "check_core_lenient", [terms[i] for i in maybe], shard=60,
+            still = coq_eval("C05", tag + "l", IMPORTS_CORE, "core_case", "check_core_lenient", [terms[i] for i in maybe], shard=60,
                                      extra_defs=FAMLIB_DEF)
             ok = set(maybe) - {maybe[i] for i in still}
             nok = len(ok)
@@ -550,7 +562,7 @@ def flush(cx, tag):
         res["core"], res["ambiguous"] = bad, nok
 
     def trace():
-        res["trace"] = C.coq_eval_cases("C05", tag + "t", IMPORTS_TRACE, "trace_case", "check_trace", cx.trace_terms, shard=60) if cx.trace_terms else []
+        res["trace"] = coq_eval("C05", tag + "t", IMPORTS_TRACE, "trace_case", "check_trace", cx.trace_terms, shard=60) if cx.trace_terms else []
 
     errs = []
 
@@ -562,10 +574,15 @@ def flush(cx, tag):
                 errs.append(e)
         return g
     ths = [threading.Thread(target=guarded(core)), threading.Thread(target=guarded(trace))]
-    for t in ths:
-        t.start()
-    for t in ths:
-        t.join()
+    if chk.tier == "thorough":      # one after the other: half the number of concurrent coqc processes
+        for t in ths:
+            t.start()
+            t.join()
+    else:
+        for t in ths:
+            t.start()
+        for t in ths:
+            t.join()
     if errs:
         raise errs[0]
     chk.dist["error-class-order-ambiguous"] += res.get("ambiguous", 0)
@@ -663,7 +680,7 @@ def run(tier, seed):
                 run_one(cx, "%s/%s#%d" % (label, mode, rep), prog)
     for label, prog in falsy_programs():
         run_one(cx, label, prog)
-    n = 1800 if tier == "thorough" else 260
+    n = 1500 if tier == "thorough" else 260
     for mode in ("isolated", "django"):
         for i, (label, prog) in enumerate(gen_programs(chk, n, mode)):
             # every second isolated-mode program also injects in the deferred phase (on_render_before). Not in django mode:
@@ -678,7 +695,7 @@ def run(tier, seed):
                 if not same:
                     chk.fail("c05-dynamic-variant-differs", "rendering through {% component \"dynamic\" is=.. %} differs from the plain tag",
                              {"label": label, "program": prog, "source": describe(prog), "plain": o, "dynamic": od})
-    nshape = 1000 if tier == "thorough" else 120
+    nshape = 800 if tier == "thorough" else 120
     for mode in ("isolated", "django"):
         for i, (label, prog) in enumerate(shape_programs(chk, nshape, mode)):
             o = run_one(cx, label, prog, rehook=(i % 2 == 1 and mode == "isolated"))
